@@ -121,6 +121,44 @@ def _eof_condition_consulted(ctx: Ctx, ev: Evidence) -> list[Finding]:
     return out
 
 
+def _eof_cancel_taken_up(ctx: Ctx, ev: Evidence) -> list[Finding]:
+    """C12-R6: "an EOF (cancel) received from the sender finishes the transaction with the EOF's condition" - in every step in
+    which the receiver still waits for file data of a transaction that is neither cancelled nor complete. Those steps are
+    derived (steps with an edge on which a File Data PDU is written); a step passes when some EOF edge leaving it records
+    the cancellation (disposition CANCELED with the remote entity as fault location)."""
+    ev.rule("C12-R6", "receiver: an EOF (cancel) is taken up in every step that still accepts file data of a running transaction", 3)
+    out: list[Finding] = []
+    a = ctx.ats("dest")
+    h = a.h
+    data_steps: set[str] = set()
+    for e in a.edges:
+        if e.label == ("state_machine", "FD") and e.exc is None and state_of(a, e.pre) == "BUSY" and any(x.kind == "env" and x.name == "vfs.write_data" for x in e.ev):
+            data_steps.add(step_of(a, e.pre))
+    if not data_steps:
+        from ..model import AnalysisError
+        raise AnalysisError("no step of the destination handler writes File Data (rule blind)")
+    took: dict[str, bool] = {s_: False for s_ in data_steps}
+    wit: dict[str, object] = {}
+    for e in a.edges:
+        if e.label != ("state_machine", "EOF") or state_of(a, e.pre) != "BUSY":
+            continue
+        st = step_of(a, e.pre)
+        if st not in took or ename(h.wget(e.pre, "_params.completion_disposition")) == "CANCELED" or h.wget(e.pre, "_pdus_to_be_sent"):
+            continue
+        stores = [(x.name, x.args[0]) for x in e.ev if x.kind == "store"]
+        if any(n_ == "_DestFieldWrapper.completion_disposition" and ename(v_) == "CANCELED" for n_, v_ in stores) \
+                and any(n_ == "FinishedParams.fault_location" and "remote_cfg.entity_id" in repr(v_) for n_, v_ in stores):
+            took[st] = True
+        elif e.exc is None:
+            wit.setdefault(st, e)
+    for st, ok in sorted(took.items()):
+        ev.inst("C12-R6", f"dest handler | step {st} (file data still accepted): an EOF (cancel) records the cancellation: {ok}", "ok" if ok else "violation")
+        if not ok:
+            out.append(Finding("C12-R6", f"dest handler | EOF (cancel) not taken up | step {st}",
+                               f"in step {st} the receiver still accepts file data but ignores an EOF PDU: an EOF (cancel) from the sender does not finish the transaction with the EOF's condition (it runs on until a limit fault)", "", witness_of(a, wit[st]) if st in wit else None))
+    return out
+
+
 def check(ctx: Ctx, ev: Evidence) -> list[Finding]:
     out: list[Finding] = []
     ev.rule("C12-R1", "cancel_request return table (idle / foreign id / own id) and absence of cross-enum comparisons", 6)
@@ -296,5 +334,6 @@ def check(ctx: Ctx, ev: Evidence) -> list[Finding]:
                                 out.append(Finding("C12-R3", "dest handler | cancelled completion | Finished PDU differs from the indication", "the Finished PDU of a cancelled transaction carries another condition/fault location than the indication", fin[0].site, witness_of(a, e)))
     out += _cancel_is_final(ctx, ev)
     out += _eof_condition_consulted(ctx, ev)
+    out += _eof_cancel_taken_up(ctx, ev)
     ev.extra["explanation"] = "every cancel_request edge (state x id match) and every EOF(cancel)/cancelled-completion edge of both handlers' abstract transition systems; forward reachability after a successful sender cancel"
     return out
